@@ -58,7 +58,7 @@ PROPS = {
     'C08': dict(quick=dict(profiles=[prof('sched', 160, 10), prof('free', 48, 120, race=True)]),
                 thorough=dict(profiles=[prof('sched', 3200, 16), prof('free', 960, 250, race=True)]),
                 rule="(a) deterministic windows: one call (Publish, Delete, Consume, GC) is held at one of its verif pause points (after the rollover swap; "
-                     "between the file writes and the index append; after a delete chose its segment / rewrote it / before it swaps; between a reader's "
+                     "after each record of a batch; between the file writes and the index append; after a delete chose its segment / rewrote it / before it swaps; between a reader's "
                      "index lookup and its record read; between a GC's index unload and its file unload) while one or two other calls of any kind run, "
                      "to completion or until they block on a lock the held call owns; every call carries invocation/response times of one logical clock; "
                      "the driver enumerates the sequential orders consistent with those times and accepts when, for one of them, the sequential model "
@@ -68,8 +68,10 @@ PROPS = {
                      "with the race detector; the recorded history is judged without a sequential witness: disjoint consecutive publish ranges in "
                      "real-time order; every returned message is the published one; a gap in a Consume answer is a Delete that reported it and was "
                      "invoked before the answer; no stale 'caught up'; no error a sequential run could not give; no offset reported deleted twice; "
-                     "a Delete whose lowest offset was live throughout deletes it; NextOffset/Sync within the acknowledged/invoked bounds; final "
-                     "scan = published - reported; final Check passes; plus the race detector's verdict; a case is one window / one history, "
+                     "a Delete whose lowest offset was live throughout deletes it; NextOffset/Sync within the acknowledged/invoked bounds; an "
+                     "answer that ends the log or a segment ends it between batches (BatchAtomic); final scan = published - reported; final Check "
+                     "passes; plus the race detector's verdict and any crash of the process (a fault in unmapped memory); in a third of the histories "
+                     "one goroutine does nothing but GC(0), in a third every record is larger than a page and the head long-lived; a case is one window / one history, "
                      "non-trivial when the held call reached its window and another call ran inside it / when a delete and a rollover happened",
                 assumptions=["the Go race detector sees the races of the schedules that ran (it is not exhaustive)",
                              "pause points mark the windows the property names; windows inside the kernel (page-wise visibility of one write) are only reached by the free-running part",
